@@ -87,7 +87,10 @@ func isStrictAncestor(a, n Node) bool {
 //   - *.below-slicing-pool: the oversubscribed pool is a strict descendant of
 //     a pool that holds an exclusive (sliced) grant;
 //   - *.pool-without-sharable-cpus: the container's pool was configured with
-//     no sharable CPU at all (all of them reserved/isolated).
+//     no sharable CPU at all (all of them reserved/isolated);
+//   - C03.pinned-nonempty.below-slicing-pool: the container's pool is a strict
+//     descendant of a pool that holds an exclusive (sliced) grant (which may
+//     have taken every shared CPU of the descendant).
 func (w *verifWorld) checkC03() {
 	p := w.p
 	capShared, capSharedBelow, capReserved := true, true, true
@@ -108,7 +111,7 @@ func (w *verifWorld) checkC03() {
 	verifAssert("C03.cap.shared", capShared)
 	verifAssert("C03.cap.shared.below-slicing-pool", capSharedBelow)
 	verifAssert("C03.cap.reserved", capReserved)
-	nonempty, nonemptyNoSharable := true, true
+	nonempty, nonemptyNoSharable, nonemptyBelow := true, true, true
 	for _, c := range w.ctrs {
 		g := w.grantOf(c)
 		if g == nil || g.cpuType == cpuPreserve {
@@ -116,11 +119,19 @@ func (w *verifWorld) checkC03() {
 		}
 		ok := verifAnd(c.cpusSet, c.cpus != "")
 		noSharable := g.node.GetSupply().SharableCPUs().IsEmpty()
-		nonempty = verifAnd(nonempty, verifOr(noSharable, ok))
+		below := false
+		for _, o := range w.ctrs {
+			if og := w.grantOf(o); og != nil && isStrictAncestor(og.node, g.node) {
+				below = verifOr(below, !og.exclusive.IsEmpty())
+			}
+		}
+		nonempty = verifAnd(nonempty, verifOr(verifOr(noSharable, below), ok))
 		nonemptyNoSharable = verifAnd(nonemptyNoSharable, verifImplies(noSharable, ok))
+		nonemptyBelow = verifAnd(nonemptyBelow, verifImplies(verifAnd(below, !noSharable), ok))
 	}
 	verifAssert("C03.pinned-nonempty", nonempty)
 	verifAssert("C03.pinned-nonempty.pool-without-sharable-cpus", nonemptyNoSharable)
+	verifAssert("C03.pinned-nonempty.below-slicing-pool", nonemptyBelow)
 }
 
 // checkEligibility asserts that container c got exactly the exclusive CPUs the
@@ -151,21 +162,20 @@ func (w *verifWorld) checkEligibility(c *verifContainer) {
 	}
 }
 
-// VerifC01C03History: up to `ops` allocate/release requests with symbolic
-// containers against a policy with symbolic CPU constraints; all C01 and C03
-// assertions after every request.
-func VerifC01C03History() {
+// verifHistory runs up to `ops` allocate/release requests with symbolic
+// containers against a policy with (optionally symbolic) CPU constraints and
+// calls check after the initial state and after every request.
+func verifHistory(check func(w *verifWorld), onAllocated func(w *verifWorld, c *verifContainer)) {
 	machine := verifParam("machine", 0)
 	_, _, ncpu := verifMachine(machine)
 	allowed, reserved, isolated := verifSymbolicConstraints(ncpu, verifParam("constraints", 1))
 	w := verifNewPolicy(machine, allowed, reserved, isolated, verifDefaultConfig())
 	verifCover("policy-built")
-	w.checkC01()
-	w.checkC03()
+	check(w)
 	ops := verifParam("ops", 2)
 	for k := 0; k < ops; k++ {
 		op := 0
-		if len(w.ctrs) > 0 {
+		if len(w.ctrs) > 0 && verifParam("releases", 1) != 0 {
 			op = verifChoice("op", 2)
 		}
 		switch op {
@@ -177,7 +187,9 @@ func VerifC01C03History() {
 				verifAssert("C03.failed-allocation-leaves-no-grant", w.grantOf(c) == nil)
 			} else {
 				verifCover("allocated")
-				w.checkEligibility(c)
+				if onAllocated != nil {
+					onAllocated(w, c)
+				}
 			}
 		case 1:
 			c := w.ctrs[verifChoice("victim", len(w.ctrs))]
@@ -186,12 +198,22 @@ func VerifC01C03History() {
 			}
 			err := w.p.ReleaseResources(c)
 			verifCover("released")
-			verifAssert("C09.release-succeeds", err == nil)
-			verifAssert("C09.release-removes-grant", w.grantOf(c) == nil)
+			verifAssert("C09.release-succeeds", verifAnd(err == nil, w.grantOf(c) == nil))
 		}
-		w.checkC01()
-		w.checkC03()
+		check(w)
 	}
+}
+
+// VerifC01History: exclusivity invariants after every request of a bounded
+// history through the public API.
+func VerifC01History() {
+	verifHistory(func(w *verifWorld) { w.checkC01() }, nil)
+}
+
+// VerifC03History: capacity invariants after every request, and eligibility /
+// cpu.shares of every admitted container.
+func VerifC03History() {
+	verifHistory(func(w *verifWorld) { w.checkC03() }, func(w *verifWorld, c *verifContainer) { w.checkEligibility(c) })
 }
 
 var _ = cpuset.New
